@@ -115,6 +115,20 @@ def main():
             elif k == "setvar":
                 setattr(module(act[1]), act[2], eval(act[3]))
                 out.append("ok")
+            elif k == "bind":
+                setattr(module(act[1]), act[2], lookup(act[3]))
+                out.append("ok")
+            elif k == "callargs":
+                # call a function with explicit args given as python expressions evaluated in the module namespace
+                fn = lookup(act[1])
+                ns = dict(vars(module("mod")))
+                args = [eval(a, ns) for a in act[2]]
+                vrec.REC.calls.clear()
+                try:
+                    r = ["ok", jsonable(fn(*args))]
+                except Exception as e:
+                    r = ["raise", type(e).__name__, str(e)[:120]]
+                out.append(dict(result=r, trace=list(vrec.REC.calls)))
             elif k == "delvar":
                 if hasattr(module(act[1]), act[2]):
                     delattr(module(act[1]), act[2])
